@@ -148,6 +148,9 @@ pub struct Tree {
     pub genesis: H,
     /// insertion order (deterministic iteration)
     pub order: Vec<H>,
+    /// real proof of work (spec with an Eaglesong engine): every built block gets a nonce found by the
+    /// harness's own search against the independent PoW reference (powmodel.rs); None = Dummy engine
+    pub pow: Option<crate::powmodel::PowKind>,
 }
 
 pub struct ModelEpochView<'a>(pub &'a Tree);
@@ -347,11 +350,17 @@ impl Tree {
         };
         let mut blocks = HashMap::new();
         blocks.insert(gh.clone(), mb);
+        let pow = match consensus.pow {
+            ckb_pow::Pow::Dummy => None,
+            ckb_pow::Pow::Eaglesong => Some(crate::powmodel::PowKind::Eaglesong),
+            ckb_pow::Pow::EaglesongBlake2b => Some(crate::powmodel::PowKind::EaglesongBlake2b),
+        };
         Tree {
             consensus,
             blocks,
             genesis: gh.clone(),
             order: vec![gh],
+            pow,
         }
     }
 
@@ -703,7 +712,11 @@ impl Tree {
         if !opts.no_extension {
             bb = bb.extension(Some(ext.pack()));
         }
-        let block = bb.build();
+        let mut block = bb.build();
+        if let Some(kind) = self.pow {
+            block = crate::powmodel::seal(kind, &block, spec.nonce, opts.nonce_mode)
+                .ok_or_else(|| format!("no nonce for mode {:?} within the search cap", opts.nonce_mode))?;
+        }
         let hash = block.hash();
         // fix up created-by block hash
         for (_, c) in state.live.iter_mut() {
@@ -884,6 +897,8 @@ pub struct BuildOpts {
     pub extension_override: Option<Vec<u8>>,
     /// inputs that are not live are taken as zero-capacity (double spends / unknown cells)
     pub allow_missing_inputs: bool,
+    /// how the nonce is chosen when the spec has a real PoW engine (ignored under Dummy)
+    pub nonce_mode: crate::powmodel::NonceMode,
 }
 
 /// apply a block's cell changes to a state (used for genesis and for replays of foreign blocks)
